@@ -1,3 +1,3 @@
 From Coq Require Import ExtrOcamlBasic.
-From CppUVerif Require Import C13_Model.
-Extraction "c13_model.ml" C13_Model.run C13_Model.spec C13_Model.valid.
+From CppUVerif Require Import C13_Life.
+Extraction "c13_model.ml" C13_Life.run_scn C13_Life.spec_scn C13_Life.valid_scn.
